@@ -176,6 +176,9 @@ def units():
             extra_source='harness/lemma_relocate.c', proto='void lemma_relocate(struct %s *a, struct %s *b)' % (b, b),
             extra_reach=[b + '__size__v_c', b + '__capacity__v_c', b + '__begin__v_c'])
         us[-1]['defs'].update({'LEMMA_SIZE(p)': b + '__size__v_c(p)', 'LEMMA_CAPACITY(p)': b + '__capacity__v_c(p)', 'LEMMA_BEGIN(p)': b + '__begin__v_c(p)'})
+    # ---- C14, converse direction: no container claims the trait when one of its parts is not relocatable -- type-level facts evaluated by the
+    #      real compiler on the real headers (harness/static_traits.cpp), one obligation per instantiation
+    add('static.traits', 'harness', ['C14'], 1, svb('ElemNR', 'u8'), 'u8', 'ElemNR', throws_reachable=False, static_facts='harness/static_traits.cpp')
     # ---- swap2 between flavours (C13): ordered pairs, same 8-bit size type in the quick tier, mixed 8/16-bit in the thorough tier
     FL3 = {'small': (1, 'SmallVectorBase_E_A_%s', 'VectorImpl_E_A_%s_t_Dyn'), 'std': (2, 'StdVectorBase_E_A_%s', 'VectorImpl_E_A_%s_f_Dyn'),
            'static': (3, 'StaticVectorBase_E_%s', 'VectorImpl_E_X_%s_t_Exc')}
